@@ -12,7 +12,7 @@ import vlib
 from harness.speccommon import *
 
 LEVEL_TEXT = ('Lean 4 theorems about an executable list model of Spectrum whose comparison operators and scalar formulas (crop guards and drop '
-              'tests, integrate\'s keep test, trim\'s tolerance test and refusal and the slice bounds it keeps (Gen.trimSliceStart/Stop; trim_slice_is_code), append\'s overlap test (Gen.appendRefusesAt; append_guard_is_code, append_guard_refuses_touching, append_single_refused), pad\'s sample counts, bin mid-points/end edges and the '
+              'tests, integrate\'s keep test, trim\'s tolerance test and refusal and the slice bounds it keeps (Gen.trimSliceStart/Stop; trim_slice_is_code), append\'s overlap test (Gen.appendRefusesAt; append_guard_is_code, append_guard_refuses_touching, append_single_refused), pad\'s sample counts and placement (Gen.padLeft*/padRight*: linspace end points and the deleted index of each block; pad_placement_is_code: the point removed from each block is the spectrum\'s own end sample), the ends="inside" edges and the two inserted Simpson quarter points (Gen.binInsideEdgeLo/Hi, binInsideLo/Hi; bin_inside_points_are_code on two and three centres, bin_inside_quarter_points), bin mid-points/end edges and the '
               'trapezoid/Simpson terms) are regenerated from radiometry.py (Gen/SpectrumOps.lean): the invariant (strictly increasing wavelengths, '
               'one value per wavelength) is preserved by crop/trim/pad/append/resample and by every history, also when an operation is refused; '
               'crop keeps exactly the closed range and is covariant under a change of unit (crop_scale_covariant); trim keeps first-to-last '
